@@ -24,12 +24,95 @@ structure Cfg where
   sendUnderMutex : Bool
   /-- events are emitted before the record guard is released, and the fan-out is synchronous -/
   emittedUnderGuard : Bool
+  /-- `Event.EventTime` is read from the clock when the event is built (not taken from the record's metadata) -/
+  stampFromClock : Bool
+  /-- SummonSwamp looks for subscribers after it has stored the new instance in the swamp map -/
+  checksSubscribersAfterStore : Bool
   deriving DecidableEq, Repr
+
+/-! ### a subscription that arrives while the swamp is being loaded
+
+  hydra.go: SummonSwamp creates the instance (loading it from disk), stores it in the swamp map and switches event
+  sending on when somebody is subscribed; SubscribeToSwampEvents registers the subscriber and then switches sending on
+  when the swamp is in the map.  Store-then-look on both sides: whoever comes second sees the other. -/
+namespace SubRace
+
+structure St where
+  pcA : Nat        -- summoner
+  pcB : Nat        -- subscriber
+  stored : Bool
+  subscribed : Bool
+  saw : Bool       -- defective order only: what the summoner saw before the load
+  sending : Bool
+  deriving DecidableEq, Repr
+
+def init : St := { pcA := 0, pcB := 0, stored := false, subscribed := false, saw := false, sending := false }
+
+/-- `true`: a step of the summoner, `false`: of the subscriber -/
+def step (afterStore : Bool) (s : St) (a : Bool) : Option St :=
+  if a then
+    match s.pcA with
+    | 0 => if afterStore then some { s with pcA := 1, stored := true } else some { s with pcA := 1, saw := s.subscribed }
+    | 1 => if afterStore then some { s with pcA := 2, sending := s.sending || s.subscribed }
+           else some { s with pcA := 2, stored := true, sending := s.sending || s.saw }
+    | _ => none
+  else
+    match s.pcB with
+    | 0 => some { s with pcB := 1, subscribed := true }
+    | 1 => some { s with pcB := 2, sending := s.sending || s.stored }
+    | _ => none
+
+abbrev run (afterStore : Bool) := LTS.run (step afterStore)
+
+structure Inv (s : St) : Prop where
+  a : 1 ≤ s.pcA → s.stored = true
+  b : 1 ≤ s.pcB → s.subscribed = true
+  j : s.pcA = 2 → s.pcB = 2 → s.sending = true
+
+theorem inv_step (s s' : St) (x : Bool) (h : Inv s) (hs : step true s x = some s') : Inv s' := by
+  obtain ⟨ha, hb, hj⟩ := h
+  cases x
+  · have hc : s.pcB = 0 ∨ s.pcB = 1 ∨ 2 ≤ s.pcB := by omega
+    rcases hc with h0 | h1 | h2
+    · simp [step, h0] at hs; subst hs
+      exact ⟨ha, fun _ => rfl, fun _ h2 => by simp at h2⟩
+    · simp [step, h1] at hs; subst hs
+      refine ⟨ha, fun _ => hb (by omega), fun hA _ => ?_⟩
+      simp [ha (by simp at hA; omega)]
+    · have : ∃ n, s.pcB = n + 2 := ⟨s.pcB - 2, by omega⟩
+      obtain ⟨n, hn⟩ := this
+      simp [step, hn] at hs
+  · have hc : s.pcA = 0 ∨ s.pcA = 1 ∨ 2 ≤ s.pcA := by omega
+    rcases hc with h0 | h1 | h2
+    · simp [step, h0] at hs; subst hs
+      exact ⟨fun _ => rfl, hb, fun h2 _ => by simp at h2⟩
+    · simp [step, h1] at hs; subst hs
+      refine ⟨fun _ => ha (by omega), hb, fun _ hB => ?_⟩
+      simp [hb (by simp at hB; omega)]
+    · have : ∃ n, s.pcA = n + 2 := ⟨s.pcA - 2, by omega⟩
+      obtain ⟨n, hn⟩ := this
+      simp [step, hn] at hs
+
+/-- whatever the interleaving, once both calls have returned the swamp is sending -/
+theorem sending_after_store (l : List Bool) (s : St) (h : run true init l = some s) (hA : s.pcA = 2) (hB : s.pcB = 2) :
+    s.sending = true :=
+  (LTS.inv_run (step true) Inv (fun s a s' hi hs => inv_step s s' a hi hs) init l s
+    ⟨by simp [init], by simp [init], by simp [init]⟩ h).j hA hB
+
+/-- looking before the load: the subscriber registers during the load, finds no swamp in the map, and nobody switches
+    sending on -/
+theorem missed_when_checked_first : (run false init [true, false, false, true]).map (·.sending) = some false := by decide
+
+end SubRace
+
+/-- the stamp an event gets: the clock, or — defective — the record's CreatedAt / ModifiedAt when it has one
+    (client-supplied metadata, any instant) -/
+def stamp (fromClock : Bool) (now rmeta : Int) : Int := if fromClock then now else if rmeta > 0 then rmeta else now
 
 /-- The full-strength statement. -/
 structure Holds (c : Cfg) : Prop where
-  /-- the wire timestamp denotes exactly the instant the event was stamped with -/
-  timeExact : ∀ n : Int, toNanos (conv c.timeConv n) = n
+  /-- the wire timestamp denotes exactly the wall-clock instant of the change, whatever metadata the record carries -/
+  timeExact : ∀ now rmeta : Int, toNanos (conv c.timeConv (stamp c.stampFromClock now rmeta)) = now
   /-- every subscriber receives exactly the Spec's events of its subscription window:
       one per create / real update / delete with the committed and previous values, none
       for no-op saves and reads -/
@@ -40,6 +123,10 @@ structure Holds (c : Cfg) : Prop where
       ∃ rest, s.commits = s.emitted ++ rest ∧ rest.length ≤ 1
   /-- no two goroutines are inside `SendMsg` on one stream at the same time -/
   serialized : ∀ sched s, Send.run c.sendUnderMutex Send.init sched = some s → Send.Serialized s
+  /-- a subscription made while the swamp is being summoned is served: once the summon and the subscribe call have
+      both returned, the swamp sends events -/
+  subscribedWhileLoading : ∀ l s, SubRace.run c.checksSubscribersAfterStore SubRace.init l = some s →
+      s.pcA = 2 → s.pcB = 2 → s.sending = true
 
 /-! ### time conversion (pure `Int` arithmetic) -/
 
@@ -459,20 +546,28 @@ structure Facts where
   fanoutSynchronous : Tri
   resetsChangedFlags : Tri
   oldIsLive : Tri
+  /-- every `Event{…}` literal in swamp.go takes `EventTime` from `time.Now()` -/
+  eventTimeFromClock : Tri
+  /-- hydra.SummonSwamp: `hasEventSubscriber` is consulted after `h.swamps.Store` -/
+  checksSubscribersAfterStore : Tri
   deriving Repr
 
 def cfgOf (f : Facts) : Cfg :=
   { ev := { resetsChangedFlags := f.resetsChangedFlags.isYes, oldIsLive := !f.oldIsLive.isNo },
     timeConv := f.timeConv,
     sendUnderMutex := f.sendUnderMutex.isYes,
-    emittedUnderGuard := f.emittedUnderGuard.isYes && f.fanoutSynchronous.isYes }
+    emittedUnderGuard := f.emittedUnderGuard.isYes && f.fanoutSynchronous.isYes,
+    stampFromClock := !f.eventTimeFromClock.isNo,
+    checksSubscribersAfterStore := !f.checksSubscribersAfterStore.isNo }
 
 def findings (c : Cfg) : List String :=
   (if c.timeConv = .unixSec then ["C19-event-time-nanos-as-seconds"] else []) ++
   (if c.sendUnderMutex then [] else ["C19-concurrent-sendmsg"]) ++
   (if c.ev.resetsChangedFlags then [] else ["C19-noop-save-emits-event"]) ++
   (if c.ev.oldIsLive then ["C19-old-treasure-is-live-object"] else []) ++
-  (if c.emittedUnderGuard then [] else ["C19-events-out-of-order"])
+  (if c.emittedUnderGuard then [] else ["C19-events-out-of-order"]) ++
+  (if c.stampFromClock then [] else ["C19-event-time-from-record-metadata"]) ++
+  (if c.checksSubscribersAfterStore then [] else ["C19-subscribe-during-load-misses-events"])
 
 def classify (f : Facts) : Verdict :=
   if f.timeConv = .unknown then .undetermined "events.timeConv" else
@@ -481,6 +576,8 @@ def classify (f : Facts) : Verdict :=
   if f.fanoutSynchronous = .unknown then .undetermined "events.fanoutSynchronous" else
   if f.resetsChangedFlags = .unknown then .undetermined "save.resetsChangedFlags" else
   if f.oldIsLive = .unknown then .undetermined "events.oldIsLive" else
+  if f.eventTimeFromClock = .unknown then .undetermined "events.eventTimeFromClock" else
+  if f.checksSubscribersAfterStore = .unknown then .undetermined "summon.checksSubscribersAfterStore" else
   match findings (cfgOf f) with
   | [] => .holds
   | fs => .violated fs
@@ -488,22 +585,28 @@ def classify (f : Facts) : Verdict :=
 /-- The `_partial` statement: every clause of `Holds` whose own facts are good holds,
     whatever the other facts are. -/
 structure HoldsPartial (c : Cfg) : Prop where
-  timeExact : TimeConv.exact c.timeConv → ∀ n : Int, toNanos (conv c.timeConv n) = n
+  timeExact : TimeConv.exact c.timeConv → c.stampFromClock = true →
+    ∀ now rmeta : Int, toNanos (conv c.timeConv (stamp c.stampFromClock now rmeta)) = now
   exactlyOnce : c.ev = goodEv → ∀ i ops, deliveredM c.ev i St.init ops = deliveredS i Spec.init ops
   perKeyOrder : c.emittedUnderGuard = true → ∀ sched s, Order.run c.emittedUnderGuard Order.init sched = some s →
       ∃ rest, s.commits = s.emitted ++ rest ∧ rest.length ≤ 1
   serialized : c.sendUnderMutex = true → ∀ sched s, Send.run c.sendUnderMutex Send.init sched = some s → Send.Serialized s
+  subscribedWhileLoading : c.checksSubscribersAfterStore = true → ∀ l s,
+      SubRace.run c.checksSubscribersAfterStore SubRace.init l = some s → s.pcA = 2 → s.pcB = 2 → s.sending = true
 
 theorem holds_partial (c : Cfg) : HoldsPartial c := by
-  refine ⟨?_, ?_, ?_, ?_⟩
-  · intro h; exact (time_conv_id _).mpr h
+  refine ⟨?_, ?_, ?_, ?_, ?_⟩
+  · intro h hc now rmeta; rw [hc]; simp only [stamp, if_true]; exact (time_conv_id _).mpr h now
   · intro h i ops; rw [h]; exact exactly_once i ops _ _ rel_init
   · intro h sched s hr; rw [h] at hr; exact per_key_order sched s hr
   · intro h sched s hr; rw [h] at hr; exact serialized_of_mutex sched s hr
+  · intro h l s hr hA hB; rw [h] at hr; exact SubRace.sending_after_store l s hr hA hB
 
 theorem holds_of_no_findings (c : Cfg) (hex : c.timeConv ≠ .unknown) (h : findings c = []) : Holds c := by
   simp only [findings, List.append_eq_nil_iff] at h
-  obtain ⟨⟨⟨⟨h1, h2⟩, h3⟩, h4⟩, h5⟩ := h
+  obtain ⟨⟨⟨⟨⟨⟨h1, h2⟩, h3⟩, h4⟩, h5⟩, h6⟩, h7⟩ := h
+  have hsc : c.stampFromClock = true := by cases hh : c.stampFromClock <;> simp [hh] at h6 ⊢
+  have hcs : c.checksSubscribersAfterStore = true := by cases hh : c.checksSubscribersAfterStore <;> simp [hh] at h7 ⊢
   have p := holds_partial c
   have ht : TimeConv.exact c.timeConv := by
     cases htc : c.timeConv with
@@ -516,13 +619,15 @@ theorem holds_of_no_findings (c : Cfg) (hex : c.timeConv ≠ .unknown) (h : find
   have ho : c.ev.oldIsLive = false := by cases hh : c.ev.oldIsLive <;> simp [hh] at h4 ⊢
   have hg : c.emittedUnderGuard = true := by cases hh : c.emittedUnderGuard <;> simp [hh] at h5 ⊢
   have hev : c.ev = goodEv := by cases hc : c.ev; simp [hc] at hr ho; simp [goodEv, hr, ho]
-  exact ⟨p.timeExact ht, p.exactlyOnce hev, p.perKeyOrder hg, p.serialized hm⟩
+  exact ⟨p.timeExact ht hsc, p.exactlyOnce hev, p.perKeyOrder hg, p.serialized hm, p.subscribedWhileLoading hcs⟩
 
 theorem refutes_of_findings (c : Cfg) (h : findings c ≠ []) : ¬ Holds c := by
   intro hh
   apply h
   have h1 : c.timeConv ≠ .unixSec := by
-    intro e; have := hh.timeExact 1; rw [e, conv_sec] at this; omega
+    intro e; have := hh.timeExact 1 0
+    have hs : stamp c.stampFromClock 1 0 = 1 := by unfold stamp; cases c.stampFromClock <;> simp
+    rw [hs, e, conv_sec] at this; omega
   have h2 : c.sendUnderMutex = true := (sends_serialized _).mp hh.serialized
   have h3 : c.ev.resetsChangedFlags = true := by
     cases hr : c.ev.resetsChangedFlags with
@@ -555,7 +660,36 @@ theorem refutes_of_findings (c : Cfg) (h : findings c ≠ []) : ¬ Holds c := by
         obtain ⟨rest, he, _⟩ := this
         rw [hw.1, hw.2] at he
         simp at he
-  simp [findings, h1, h2, h3, h4, h5]
+  have h6 : c.stampFromClock = true := by
+    cases hs : c.stampFromClock with
+    | true => rfl
+    | false =>
+      exfalso
+      -- a record created "in 2001" (meta = 5) and changed now (now = 7): the wire time is 5
+      have := hh.timeExact 7 5
+      rw [hs] at this
+      have hx : stamp false 7 5 = 5 := by decide
+      rw [hx] at this
+      cases htc : c.timeConv with
+      | unixSec => exact h1 htc
+      | unixNano => rw [htc, conv_nano] at this; omega
+      | unixSplit => rw [htc, conv_split] at this; omega
+      | unknown => rw [htc] at this; simp [conv, toNanos] at this
+  have h7 : c.checksSubscribersAfterStore = true := by
+    cases hs : c.checksSubscribersAfterStore with
+    | true => rfl
+    | false =>
+      exfalso
+      cases hr : SubRace.run false SubRace.init [true, false, false, true] with
+      | none => have := SubRace.missed_when_checked_first; rw [hr] at this; simp at this
+      | some s =>
+        have hw := SubRace.missed_when_checked_first; rw [hr] at hw; simp at hw
+        have hpc : s.pcA = 2 ∧ s.pcB = 2 := by
+          have : (SubRace.run false SubRace.init [true, false, false, true]).map (fun s => (s.pcA, s.pcB)) = some (2, 2) := by decide
+          rw [hr] at this; simp at this; exact this
+        have := hh.subscribedWhileLoading [true, false, false, true] s (by rw [hs]; exact hr) hpc.1 hpc.2
+        rw [hw] at this; exact absurd this (by simp)
+  simp [findings, h1, h2, h3, h4, h5, h6, h7]
 
 theorem classify_sound (f : Facts) : (classify f).Sound (Holds (cfgOf f)) (HoldsPartial (cfgOf f)) := by
   unfold classify
@@ -565,7 +699,9 @@ theorem classify_sound (f : Facts) : (classify f).Sound (Holds (cfgOf f)) (Holds
   split; · trivial
   split; · trivial
   split; · trivial
-  rename_i hex _ _ _ _ _
+  split; · trivial
+  split; · trivial
+  rename_i hex _ _ _ _ _ _ _
   split
   · rename_i hf
     exact holds_of_no_findings _ (by simpa [cfgOf] using hex) hf
